@@ -312,11 +312,19 @@ fn pick_indices_for(n: usize, handed: usize) -> Vec<usize> {
 }
 
 fn verifier_result(ok: bool) -> impl Fn(&[u8], &[u8]) -> Result<(), String> {
-    move |_a, _b| if ok { Ok(()) } else { Err("verr".to_string()) }
+    move |_a, _b| {
+        crate::common::layered_use();
+        if ok {
+            Ok(())
+        } else {
+            Err("verr".to_string())
+        }
+    }
 }
 
 fn decrypt_result(ok: bool) -> impl Fn(&[u8], &[u8]) -> Result<Vec<u8>, String> {
     move |a, _b| {
+        crate::common::layered_use();
         if ok {
             Ok(a.to_vec())
         } else {
